@@ -9,8 +9,22 @@ TRUST = ("Trusted base: rustc nightly front end (name resolution, type check, MI
          "equality (see DESIGN.md §4 'not decided').")
 
 CHECKS = {
- "C01": ("other", "G1 completeness-before-Ok, G2 anchored extraction, G3 no discarded parse error, G4 every parsed field written back, G7 option letters detectable, G8 loop progress — over all 30 parse_from_block4 and 334 parse call sites", "§4 C01",
+ "C01": ("other", "G1 completeness-before-Ok, G2 anchored extraction, G3 no discarded parse error, G4 every parsed field written back, G7 option letters detectable, G8 loop progress — over all 30 parse_from_block4 and 334 parse call sites; decides these structural necessary conditions for every input, not value equality", "§4 C01",
          "must-pass-through / error-discipline / may-flow analysis over resolved HIR (rustc_private driver)"),
+ "C06": ("other", "N1 single guarded text->f64 conversion site, N2 currency-aware rendering and decimal check per amount type, N3 precision pairing for currency-less types; floating-point exactness itself not decided", "§4 C06",
+         "who-may-call + dominance + sibling pairing rules over resolved HIR"),
+ "C11": ("other", "T1 single century rule (who-may-call on chrono date constructors, census of century arithmetic), T2 validator reachability and rendering pattern per date/time-bearing field type, T3 JSON date codec pattern symmetry; reduces the 10^6-string claim to parse_date_yymmdd + chrono", "§4 C11",
+         "who-may-call / must-call analysis and literal census over resolved HIR"),
+ "C12": ("translation_validation", "all seven 30-way dispatch tables compared cell by cell with the 30 impl SwiftMessageBody (key literal, variant, generic arguments, callee, receiver type, returned literal), bijection, wildcard = unsupported error, T03 mismatch test dominates typed block-4 parse", "§4 C12",
+         "table extraction from resolved HIR match arms + bijection/equality check"),
+ "C13": ("other", "S1 stop-flag discipline on every flag use in 30 validate_network_rules (+ callees receiving the flag), S2 purity/determinism of the MIR call-graph closure of validation (no &mut, interior mutability, clock/random/env, hash iteration), S3 adapters call (false), keep all errors, validity = is_empty()", "§4 C13",
+         "control-dependence + effect analysis over HIR and the MIR call graph"),
+ "C14": ("other", "O1 finite static evaluation of parse_with_variant on 28 argument classes per option enum, O2 heuristic returns the variant whose parser it ran, O3 call sites pass the detected letter, G5 emitted tag per variant, G7 detector coverage", "§4 C14",
+         "finite-domain evaluation of match arms + def-use tracing over resolved HIR"),
+ "C16": ("other", "K1 unmasked stamp, K2 collision-free tag normalisation on all used tags, K3 tracker never un-consumes, K4 exactly one push per path of the distribution loop; tokeniser exactness on arbitrary text not decided", "§4 C16",
+         "expression-shape, table evaluation and path enumeration over resolved HIR"),
+ "C17": ("other", "R1 code-word literal sets disjoint per type and equal across MT103/202/205 + message-level dispatch set, R2 method-selection chains of the 30 plugin arms (predicate -> method, priority, sibling block-3 tests)", "§4 C17",
+         "sibling cross-check of literals and if-chains over resolved HIR"),
 }
 NA = {
  "C15": "quantifies over random draws of the external datafake-rs generators interpreted at run time; no sound static argument in reach bounds what those generators emit (DESIGN.md §4 C15)",
